@@ -2,3 +2,8 @@ import Verif.Props.C03
 open Verif.Props.C03
 #print axioms attr_roundtrip
 #print axioms unquoted_iff
+#print axioms entities_table_sound
+#print axioms entities_preserve_partial
+#print axioms entities_preserve_counterexample
+#print axioms entities_preserve_ctl_counterexample
+#print axioms entities_preserve_overflow_counterexample
